@@ -9,6 +9,7 @@ package main
 //   - independent oracle (oracle.go): the property's predicates evaluated on the emitted sequence and on before/after
 //     snapshots of the real tracker's state.
 import (
+	"bytes"
 	"encoding/json"
 	"fmt"
 	"os"
@@ -376,6 +377,9 @@ func init() {
 			}
 			if err := json.Unmarshal(b, &wrap); err != nil {
 				return err
+			}
+			if bytes.Contains(b, []byte(`"conc"`)) && len(wrap.Replay.Ev) == 0 {
+				return nil // a replay of channel C20conc
 			}
 			res, err := c20run(&wrap.Replay, nil)
 			if err != nil {
